@@ -136,6 +136,19 @@ void slu_vabort(const char *msg)
     _exit(97);
 }
 
+/* While the harness is in the middle of writing a trace line (it may call library routines that free blocks between
+ * two fields), events are parked and written after the line is complete. */
+static __thread int t_hold; static __thread char t_pend[1 << 15]; static __thread int t_npend;
+static void emit(const char *buf, int n)
+{
+    if (t_hold) { if (t_npend + n <= (int)sizeof t_pend) { memcpy(t_pend + t_npend, buf, n); t_npend += n; } return; }
+    fwrite(buf, 1, n, t_out);
+}
+void slu_v_hold(int on)
+{
+    t_hold = on;
+    if (!on && t_npend) { if (t_out) fwrite(t_pend, 1, t_npend, t_out); t_npend = 0; }
+}
 void slu_vhook(const char *event, const char *fmt, ...)
 {
     if (slu_v_yield && event[0] != 'A') slu_v_yield(event + 2);
@@ -150,7 +163,7 @@ void slu_vhook(const char *event, const char *fmt, ...)
         if (n > (int)sizeof buf - 3) n = sizeof buf - 3;
     }
     buf[n++] = '}'; buf[n++] = '\n';
-    fwrite(buf, 1, n, t_out);
+    emit(buf, n);
 }
 
 /* exact JSON token of a double (same encoding as the harness: [num, ld] or [sign, hi, mid, lo, ld]) */
@@ -199,7 +212,7 @@ void slu_vhook_mem(const char *event, const GlobalLU_t *Glu, const char *fmt, ..
         n += snprintf(buf + n, sizeof buf - n - 10, "]");
     }
     buf[n++] = '}'; buf[n++] = '\n';
-    fwrite(buf, 1, n, t_out);
+    emit(buf, n);
 }
 
 void slu_v_reset(void)
